@@ -78,9 +78,9 @@ def c09(ctx):
             skw = dict(window=1024, max_pktsize=512)
         import os
         os.makedirs(tlc.WORK, exist_ok=True)
-        r = crashpoints.Run(rp['k'], rp['fault'], workdir=tlc.WORK,
+        r = crashpoints.Run(rp['k'] or None, rp['fault'], workdir=tlc.WORK,
                             scenario=scen, server_kw=skw).run()
-        bad = crashpoints.judge(r, True)
+        bad = crashpoints.judge(r, rp['fault'] is not None)
         print('outcome:', r['outcome'], 'pending:', r['pending'],
               'log tail:', r['log'][-3:])
         ctx.count(('replay', 'crashpoint'))
@@ -92,6 +92,23 @@ def c09(ctx):
         ctx.count(('replay', 'login_timeout'))
         if rp['stall'] != 'auth' and at is None:
             ctx.violation(sig, 'stalled peer never dropped', replay=rp)
+    elif rp['kind'] in ('script', 'behaviour') and 'chans' in rp:
+        from harness.drivers import lifecycle
+        steps = []
+        for l in rp['script']:
+            if l[0] == 'chunk':
+                steps.append((l[:3], None))
+                steps += [(['deliver', l[1], t, 0], None) for t in l[3]]
+            else:
+                steps.append((l, None))
+        r = lifecycle.replay(steps, rp['chans'], rp['reject'],
+                             win=rp.get('win', 0))
+        r['l1'] = [b for b in r['l1'] if not b.startswith('DataBeforeClose')]
+        print('l1:', r['l1'], 'loop exceptions:', r['loop_exceptions'])
+        ctx.count(('replay', 'script'))
+        if r['l1'] or r['loop_exceptions']:
+            ctx.violation(sig, '; '.join((r['l1'] + r['loop_exceptions'])[:4]),
+                          replay=rp)
     else:
         raise SystemExit(f'replay kind {rp["kind"]} needs the model states; '
                          'run the check itself')
